@@ -740,6 +740,7 @@ mod sync {
                 #[cfg(any(feature="rt_tokio", feature="rt_async-std", feature="rt_smol", feature="rt_nio"))]
                 ::ctrlc::set_handler(|| {
                     CATCH.store(true, Ordering::SeqCst);
+                    #[cfg(ohkami_verif)] if super::__verif_sync::sched(1) {return}
                     let waker = WAKER.swap(null_mut(), Ordering::SeqCst);
                     if !waker.is_null() {
                         unsafe {Box::from_raw(waker)}.wake();
@@ -774,6 +775,7 @@ mod sync {
                                 crate::DEBUG!("[CtrlC::catch] Ready");
                                 Poll::Ready(None)
                             } else {
+                                #[cfg(ohkami_verif)] let _ = super::__verif_sync::sched(2);
                                 #[cfg(any(feature="rt_tokio", feature="rt_async-std", feature="rt_smol", feature="rt_nio"))] {
                                     let prev_waker = WAKER.swap(
                                         Box::into_raw(Box::new(cx.waker().clone())),
@@ -792,6 +794,7 @@ mod sync {
                                         None       => lock.push((current_id, current_waker)),
                                     }
                                 }
+                                #[cfg(ohkami_verif)] let _ = super::__verif_sync::sched(3);
                                 Poll::Pending
                             }
                         }
@@ -800,6 +803,41 @@ mod sync {
             }
         }
     };
+}
+
+#[cfg(ohkami_verif)]
+#[cfg(feature="__rt_native__")]
+#[doc(hidden)]
+/// verification hooks: scheduling points inside the Ctrl-C handler / `UntilInterrupt::poll`, and access to `sync`
+pub mod __verif_sync {
+    pub use super::sync::{CtrlC, WaitGroup};
+
+    /// called at the scheduling points; `true` from point 1 makes the signal handler return early
+    /// (the remaining steps are run by calling the handler again: its first step is idempotent)
+    pub static mut SCHED: Option<fn(u8) -> bool> = None;
+    #[inline(never)]
+    pub fn sched(point: u8) -> bool {
+        match unsafe {SCHED} {
+            Some(f) => f(point),
+            None    => false,
+        }
+    }
+
+    pub fn ctrlc_new() -> CtrlC {
+        CtrlC::new()
+    }
+    pub fn until_interrupt<T>(ctrlc: &CtrlC, task: impl std::future::Future<Output = T>) -> impl std::future::Future<Output = Option<T>> {
+        ctrlc.until_interrupt(task)
+    }
+    pub fn waitgroup_new() -> WaitGroup {
+        WaitGroup::new()
+    }
+    pub fn waitgroup_add(wg: &WaitGroup) -> WaitGroup {
+        wg.add()
+    }
+    pub fn waitgroup_done(wg: WaitGroup) {
+        wg.done()
+    }
 }
 
 #[cfg(all(debug_assertions, feature="__rt_native__"))]
